@@ -29,11 +29,19 @@ def judge(c, a, m):
         reason = (a.get("errors") or [{}])[0].get("reason", str(a)[:200])
         r.update(status="compile-error", detail=reason)
         return r
-    names, rows, err = relgen.run_sqlite(c.schema_list, c.db, a["sql"])
+    sql_run = re.sub(r"\b(INTERSECT|EXCEPT|UNION) DISTINCT\b", r"\1", a["sql"])     # SQLite spells the DISTINCT form without the keyword
+    stripped = False
+    if re.search(r"\b(?:INTERSECT|EXCEPT) ALL\b", sql_run):
+        # SQLite has no INTERSECT ALL / EXCEPT ALL: run the DISTINCT form; the answer is comparable only as a SET, and only when the
+        # program's result is a set anyway (`set_compare`, e.g. it ends in a DISTINCT); otherwise nothing is compared
+        sql_run = re.sub(r"\b(INTERSECT|EXCEPT) ALL\b", r"\1", sql_run)
+        stripped = True
+    names, rows, err = relgen.run_sqlite(c.schema_list, c.db, sql_run)
     if err:
         r.update(status="sqlite-error", detail=err)
         return r
     r.update(rows=rows, names=names)
+    r["setop_all_stripped"] = stripped
     if len(names) != len(c.columns):
         r.update(status="column-count", detail=f"result has {len(names)} columns {names}, frame has {len(c.columns)} {c.columns}")
         return r
@@ -43,9 +51,12 @@ def judge(c, a, m):
         perm = [c.columns.index(n) for n in names]
         mrows = [[row[i] for i in perm] for row in mrows]
         r["column_order_differs"] = True
-    if flags["ambig"]:
+    if flags["ambig"] or (stripped and not getattr(c, "set_compare", False)):
         ok = True          # the row set legitimately depends on an unspecified choice: nothing to compare
         mode = "ambiguous"
+    elif stripped:
+        ok = relgen.canon_rows([list(x) for x in {tuple(y) for y in rows}]) == relgen.canon_rows([list(x) for x in {tuple(y) for y in mrows}])
+        mode = "set"
     elif flags["sorted"] and not flags["ties"]:
         ok = rows == mrows
         mode = "seq"
@@ -173,6 +184,25 @@ def window_defect_variant(c, r):
     return None
 
 
+def group_by_has_integer_term(sql):
+    """is some top-level term of a GROUP BY list an integer literal (which SQL reads as the ordinal of a select item)?"""
+    for m in re.finditer(r"GROUP BY ", sql):
+        depth, term, i = 0, "", m.end()
+        while i <= len(sql):
+            ch = sql[i] if i < len(sql) else ")"
+            if depth == 0 and (ch in ",)" or re.match(r" (?:HAVING|ORDER BY|LIMIT|UNION|INTERSECT|EXCEPT|WINDOW)\b", sql[i:])):
+                if re.fullmatch(r"\s*-?[0-9]+\s*", term):
+                    return True
+                term = ""
+                if ch != ",":
+                    break
+            else:
+                depth += (ch == "(") - (ch == ")")
+                term += ch
+            i += 1
+    return False
+
+
 def classify(c, r, target="sql.sqlite"):
     """-> finding id (string) or None"""
     sql = r.get("sql") or ""
@@ -200,17 +230,29 @@ def classify(c, r, target="sql.sqlite"):
             qs = [int(m.group(1)) for m in (re.search(r" AS q([0-9]+)$", x) for x in bot) if m]
             if st == "rows-differ" and len(qs) >= 2 and qs != sorted(qs):
                 return "append-branches-misaligned"
-    if re.search(r"GROUP BY (?:[^()]*?, )?-?[0-9]+(?:,| |\)|$)", sql) and (st == "rows-differ" or (st == "sqlite-error" and "GROUP BY" in det)):
+    if group_by_has_integer_term(sql) and (st == "rows-differ" or (st == "sqlite-error" and "GROUP BY" in det)):
         return "group-by-constant-read-as-ordinal"
     if st == "rows-differ" and re.search(r"SELECT DISTINCT (?:ON \([^)]*\) )?[^()]* LIMIT [0-9]+", sql) and \
             re.search(r"\btake\b.*\n.*group \{[^}]*\} \((?:sort \{[^}]*\} \| )?take 1\)", prql, re.S):
         return "take-then-distinct-in-one-select"
+    setop = re.search(r"\b(INTERSECT|EXCEPT)\b", sql) and re.search(r"\bjoin\b", prql) and not re.search(r"\b(intersect|remove)\b", prql)
+    if setop and st == "sqlite-error" and "do not have the same number of result columns" in det:
+        return "setop-rewrite-partial-projection"          # repaired (9b23839): listed as fixed, so this is reported
+    if setop and st == "sqlite-error" and re.match(r"OperationalError: no such column: ", det):
+        return "setop-rewrite-bottom-columns-used-later"
+    if setop and st == "rows-differ":
+        return "setop-rewrite-null-equality"
     if st == "sqlite-error":
+        m = re.match(r"OperationalError: ambiguous column name: (\S+)", det)
+        if m and " JOIN " in sql and re.search(r"ORDER BY (?:[^()]*, )?" + re.escape(m.group(1)) + r"\b", sql):
+            return "orderby-alias-ambiguous-after-join"
         if "OFFSET" in re.sub(r"LIMIT [0-9]+ OFFSET [0-9]+", "", sql) and "syntax error" in det:
             return "offset-without-limit"
         if "--" in sql and ("incomplete input" in det or "syntax error" in det):
             return "double-minus-is-a-comment"
         m = re.match(r"OperationalError: no such column: (\S+)", det)
+        if m and re.search(r"\b" + re.escape(m.group(1).split(".")[-1]) + r" AS _expr_[0-9]+\b", sql) and re.search(r"\.\*|SELECT \*", sql):
+            return "column-next-to-star-renamed-then-referenced-by-name"
         if m:
             col = m.group(1).split(".")[-1]
             if re.search(r"ORDER BY [^)]*\b" + re.escape(col) + r"\b", sql) or re.search(r"\bsort\b", prql):
@@ -229,8 +271,18 @@ def classify(c, r, target="sql.sqlite"):
             seen[alias] = seen.get(alias, 0) + 1
         if any(v >= 2 for v in seen.values()) and re.search(r"\bsort\b", prql):
             return "sort-key-aggregate-rematerialised"
+    if st == "rows-differ" and re.search(r"\btake\b[^\n]*\n(?:.*\n)*?sort\b[^\n]*\n(?:.*\n)*?take\b[^\n]*\n(?:.*\n)*?group \{[^}]*\} \(aggregate", prql) and \
+            len(re.findall(r"\bLIMIT\b", sql)) < len(re.findall(r"(?m)^take\b", prql)):
+        return "take-sort-take-before-group-aggregate-merged"
     if st in ("rows-differ", "sqlite-error") and "SELECT NULL FROM" in sql and re.search(r"\baggregate\b", prql):
         return "unused-aggregate-elided"
+    if st in ("column-count", "names-differ"):
+        # a requested column is missing from the result and sits in an EXCLUDE / EXCEPT list of a star
+        excl = set()
+        for m_ in re.finditer(r"\*\s+(?:EXCLUDE|EXCEPT)\s*\(([^)]*)\)", sql):
+            excl |= {x.strip().strip('"`') for x in m_.group(1).split(",")}
+        if (set(c.columns) - set(r.get("names") or [])) & excl and "=(from" in prql:
+            return "inline-side-computed-columns-excluded-from-star"
     if st == "column-count":
         exp = c.columns
         names = r.get("names") or []
@@ -240,6 +292,6 @@ def classify(c, r, target="sql.sqlite"):
             return "star-projection-extra-columns"
     if st in ("names-differ", "rows-differ"):
         names = r.get("names") or []
-        if len(set(c.columns)) < len(c.columns) and any(n.startswith("_expr_") for n in names):
-            return "same-name-column-renamed"
+        if (len(set(c.columns)) < len(c.columns) or "?" in c.columns) and any(n.startswith("_expr_") for n in names):
+            return "same-name-column-renamed"          # ("?" = a column the RQ frame leaves unnamed because its name is taken twice)
     return None
